@@ -19,7 +19,7 @@ ap.add_argument('--out', default='/tmp/msweep')
 ap.add_argument('--skip-tests', action='store_true')
 args = ap.parse_args()
 OUT = args.out
-BIN = '/verif/bin/asherah-verif'
+BIN = os.environ.get('VERIF_BIN', '/verif/bin/asherah-verif')
 os.makedirs(OUT, exist_ok=True)
 subprocess.run([BIN, 'gen-mutants', f'{OUT}/m'], check=True, stdout=subprocess.DEVNULL)
 muts = json.load(open(f'{OUT}/m/mutants.json'))
